@@ -1,5 +1,5 @@
 """core.py — build steps, proof gate, correspondence runner, evidence and violation reporting."""
-import fcntl, hashlib, importlib, json, os, re, shutil, subprocess, sys, time
+import fcntl, hashlib, importlib, json, os, re, shutil, signal, subprocess, sys, time
 from concurrent.futures import ThreadPoolExecutor
 
 ROOT = os.path.dirname(os.path.dirname(os.path.abspath(__file__)))
@@ -45,6 +45,56 @@ def sh(cmd, timeout=None, cwd=None, env=None, capture=True):
         if isinstance(out, bytes):
             out = out.decode(errors="replace")
         return 124, out + "\n[timeout]"
+
+
+STALL = int(os.environ.get("LV_STALL", "240"))
+
+
+def run_watched(cmd, resfile, timeout=3600, stall=None, env=None):
+    """Run a case runner that appends to `resfile` and flushes after every case.  It is killed when the results
+    file has not grown for `stall` seconds (a case that does not terminate) or after `timeout` seconds overall;
+    the caller finds the case that hung as the first one without a result."""
+    stall = stall or STALL
+    e = dict(os.environ)
+    e.setdefault("CARGO_NET_OFFLINE", "true")
+    e["RUST_BACKTRACE"] = "0"
+    if env:
+        e.update(env)
+    logp = resfile + ".log"
+    with open(logp, "w") as lf:
+        p = subprocess.Popen(cmd, shell=True, env=e, stdin=subprocess.DEVNULL, stdout=lf, stderr=subprocess.STDOUT,
+                             start_new_session=True)
+        t0 = last = time.time()
+        size = -1
+        why = None
+        while True:
+            try:
+                p.wait(timeout=0.05 if time.time() - t0 < 2 else 0.5)
+                break
+            except subprocess.TimeoutExpired:
+                pass
+            now = time.time()
+            try:
+                sz = os.path.getsize(resfile)
+            except OSError:
+                sz = -1
+            if sz != size:
+                size, last = sz, now
+            if now - last > stall:
+                why = f"[no result for {stall}s: the case after the last result does not terminate]"
+            elif now - t0 > timeout:
+                why = "[timeout]"
+            if why:
+                try:
+                    os.killpg(p.pid, signal.SIGKILL)
+                except OSError:
+                    p.kill()
+                p.wait()
+                break
+    out = open(logp, errors="replace").read()
+    if why:
+        return 124, out + "\n" + why
+    return p.returncode, out
 
 
 class Lock:
@@ -255,7 +305,7 @@ def parse_results(path):
     return cases
 
 
-def run_sharded(exe, cases, tag, workdir, timeout=3600, shards=None):
+def run_sharded(exe, cases, tag, workdir, timeout=3600, shards=None, stall=None):
     """Run `exe <cases> <results>` over the cases split round-robin into shards.
     Returns list of per-case result-line lists (None where a shard crashed before the case)."""
     shards = shards or NPROC
@@ -266,28 +316,61 @@ def run_sharded(exe, cases, tag, workdir, timeout=3600, shards=None):
     os.makedirs(workdir, exist_ok=True)
 
     def one(k):
-        cf = os.path.join(workdir, f"{tag}.{k}.cases")
-        rf = os.path.join(workdir, f"{tag}.{k}.res")
-        with open(cf, "w") as f:
-            for _, c in buckets[k]:
-                f.write(c + "\n")
-        # deep (non-tail) recursion of the extracted model on large inputs needs a large stack
-        rc, out = sh(f"ulimit -s unlimited 2>/dev/null || ulimit -s 1000000; exec '{exe}' '{cf}' '{rf}'",
-                     timeout=timeout, env={"NO_COLOR": "1"})
-        res = parse_results(rf) if os.path.exists(rf) else []
-        return k, rc, out, res
+        """-> (k, per-case results aligned with buckets[k] (None: no result), crash records).  After a crash or a
+        hang the runner is restarted on the cases behind the one that did not return (at most 4 times)."""
+        todo = list(range(len(buckets[k])))
+        out_res = [None] * len(buckets[k])
+        recs = []
+        attempt = 0
+        while todo:
+            cf = os.path.join(workdir, f"{tag}.{k}.{attempt}.cases" if attempt else f"{tag}.{k}.cases")
+            rf = os.path.join(workdir, f"{tag}.{k}.{attempt}.res" if attempt else f"{tag}.{k}.res")
+            with open(cf, "w") as f:
+                for j in todo:
+                    f.write(buckets[k][j][1] + "\n")
+            if os.path.exists(rf):
+                os.remove(rf)
+            # deep (non-tail) recursion of the extracted model on large inputs needs a large stack
+            rc, out = run_watched(f"ulimit -s unlimited 2>/dev/null || ulimit -s 1000000; exec '{exe}' '{cf}' '{rf}'",
+                                  rf, timeout=timeout, stall=stall, env={"NO_COLOR": "1"})
+            res = parse_results(rf) if os.path.exists(rf) else []
+            if rc != 0 and len(res) > 0 and len(res) <= len(todo) and not complete_results_file(rf):
+                res = res[:-1]          # the last block was cut off by the kill
+            for j, r in zip(todo, res):
+                out_res[j] = r
+            if len(res) >= len(todo):
+                if rc != 0:
+                    recs.append({"shard": k, "rc": rc, "case_index": None, "tail": out[-500:]})
+                break
+            bad = todo[len(res)]
+            recs.append({"shard": k, "rc": rc, "case_index": buckets[k][bad][0], "tail": out[-500:],
+                         "hung": rc == 124})
+            todo = todo[len(res) + 1:]
+            attempt += 1
+            if attempt > 4:
+                break
+        return k, out_res, recs
 
     results = [None] * len(cases)
     crashes = []
     with ThreadPoolExecutor(max_workers=shards) as ex:
-        for k, rc, out, res in ex.map(one, range(shards)):
+        for k, res, recs in ex.map(one, range(shards)):
             for (i, _), r in zip(buckets[k], res):
                 results[i] = r
-            if rc != 0 or len(res) != len(buckets[k]):
-                idx = buckets[k][len(res) - 1][0] if 0 < len(res) <= len(buckets[k]) and rc != 0 else \
-                      (buckets[k][len(res)][0] if len(res) < len(buckets[k]) else None)
-                crashes.append({"shard": k, "rc": rc, "case_index": idx, "tail": out[-500:]})
+            crashes += recs
     return results, crashes
+
+
+def complete_results_file(path):
+    try:
+        with open(path, "rb") as f:
+            f.seek(0, 2)
+            if f.tell() == 0:
+                return True
+            f.seek(-1, 2)
+            return f.read(1) == b"\n"
+    except OSError:
+        return True
 
 
 # ---------------------------------------------------------------- evidence / violations
@@ -454,7 +537,7 @@ class Ctx:
         h = self.harness(profile)
         d = self.driver()
         with ThreadPoolExecutor(max_workers=2) as ex:
-            fi = ex.submit(run_sharded, h, cases, tag + "-impl-" + profile, self.work, timeout)
+            fi = ex.submit(run_sharded, h, cases, tag + "-impl-" + profile, self.work, timeout, None, getattr(self, "impl_stall", None))
             fm = ex.submit(run_sharded, d, cases, tag + "-model", self.work, timeout)
             (ri, ci), (rm, cm) = fi.result(), fm.result()
         if cm:
